@@ -41,11 +41,13 @@ const LEN_GUARD: i64 = 10_000;
 const CAP_GUARD: i64 = 10_000;
 
 fn guard_len(len: i64) -> i64 {
-    if len > LEN_GUARD { LEN_GUARD } else { len }
+    // a length with the top bit set (garbage memory) arrives here as a negative number and
+    // would turn into an enormous count when it is cast back to usize
+    len.clamp(0, LEN_GUARD)
 }
 
 fn guard_cap(cap: i64) -> i64 {
-    if cap > CAP_GUARD { CAP_GUARD } else { cap }
+    cap.clamp(0, CAP_GUARD)
 }
 
 #[derive(Clone, PartialEq)]
